@@ -102,6 +102,8 @@ func (calmSystem) KeepaliveConfig() (period, timeout, rpcTimeout time.Duration) 
 
 const localParallelism = 4
 
+func transient(mode string) bool { return isTemp(mode) }
+
 func startSession(config string) (*exec.Session, *vsys.System) {
 	var sys *vsys.System
 	bm := func(procs int) exec.Option {
@@ -305,8 +307,8 @@ func runCell(c *Cell, emit func(line)) {
 		repeats = localParallelism
 	}
 	for i := 0; i < repeats; i++ {
-		if s.Pers == "once" {
-			atomic.StoreInt64(&table[idx].fired, 0) // one-shot: fails once in every run
+		if s.Pers != "always" {
+			atomic.StoreInt64(&table[idx].fired, 0) // transient: fails once / twice in every run
 		}
 		r, ok = await(&s, true)
 		if !ok {
@@ -319,6 +321,8 @@ func runCell(c *Cell, emit func(line)) {
 		switch {
 		case r.err == nil && r.diff != "":
 			o.RepeatBad = fmt.Sprintf("repeat %d of the failing Func returned nil with wrong rows: %s", i+1, r.diff)
+		case r.err != nil && s.Pers != "always" && o.ErrNil && transient(s.Mode):
+			o.RepeatBad = fmt.Sprintf("repeat %d of the Func failed although its temporary failure goes away on retry (as in the first run, which succeeded): %s", i+1, trim(r.err.Error(), 300))
 		case r.err == nil && s.Pers == "always" && !o.ErrNil:
 			o.RepeatBad = fmt.Sprintf("repeat %d of the persistently failing Func returned nil", i+1)
 		}
